@@ -214,6 +214,22 @@ theorem C09_parser_total (tokens : List Nat) (hne : ∀ x ∈ tokens, x ≠ endT
       mofTable.decide s ((tokens.drop j).headD endTok) = none :=
   C09_lr_driver_total mofTable C09_parser_tables_wellformed tokens hne
 
+/-- viable-prefix property: whether the parse reports its error at token `x` (index |ts1|), and in which state, is
+    decided by the tokens up to and including `x` alone — the parse of `ts1 ++ x :: rest` errs there iff the parse of
+    `ts1 ++ [x]` does, for every continuation `rest`.  (The run of the driver up to a token is a function of the tokens
+    up to it: `lrRun_append`.)  Generic in the table. -/
+theorem C09_lr_error_prefix_determined (t : LRTable) (hwf : t.wf = true) (ts1 : List Nat) (x : Nat) (rest : List Nat)
+    (hne : ∀ y ∈ ts1 ++ x :: rest, y ≠ endTok) (s : Nat) :
+    lrParse t (ts1 ++ x :: rest) = .errorAt ts1.length s ↔ lrParse t (ts1 ++ [x]) = .errorAt ts1.length s :=
+  lrParse_error_prefix t hwf ts1 x rest hne s
+
+/-- the same for the MOF grammar, unconditionally -/
+theorem C09_parser_error_prefix_determined (ts1 : List Nat) (x : Nat) (rest : List Nat)
+    (hne : ∀ y ∈ ts1 ++ x :: rest, y ≠ endTok) (s : Nat) :
+    lrParse mofTable (ts1 ++ x :: rest) = .errorAt ts1.length s ↔
+      lrParse mofTable (ts1 ++ [x]) = .errorAt ts1.length s :=
+  lrParse_error_prefix mofTable C09_parser_tables_wellformed ts1 x rest hne s
+
 /-- reductions terminate: the parse loop ends by itself within (n+1)·(maxRank+1)+1 iterations — any larger amount of
     fuel gives the same outcome -/
 theorem C09_parser_terminates (tokens : List Nat) (hne : ∀ x ∈ tokens, x ≠ endTok) (fuel : Nat)
@@ -525,6 +541,8 @@ example : pragmaNamespace isIdChar ("http://h/root".toList.map Char.toNat) = .er
 example : pragmaNamespace isIdChar ("///root".toList.map Char.toNat) = .ok (("root".toList.map Char.toNat)) := by decide
 example : lrParse mofTable (["CLASS", "IDENTIFIER", "{", "}", ";"].map terminalId) = .accept 5 := by decide +kernel
 example : lrParse mofTable (["CLASS", "IDENTIFIER", "{", "}"].map terminalId) = .errorAt 4 137 := by decide +kernel
+example : lrParse mofTable (["CLASS", "CLASS", ";", "{"].map terminalId) = .errorAt 2 21 ∧
+    lrParse mofTable (["CLASS", "CLASS", ";"].map terminalId) = .errorAt 2 21 := by decide +kernel
 example : parseText ("class A { uint8 p = 5; };\n  @".toList.map Char.toNat) = .errorAtToken ⟨.errChar, 28, 1, 2⟩ 185 := by
   decide +kernel
 example : compileFileG (fun f => if f = 0 then some [.leaf (.ok ()), .file 1] else if f = 1 then some [.file 0] else none) 50 0 =
